@@ -141,6 +141,7 @@ impl<'a> Tr<'a> {
                     ty: Ty::Tuple(vs.into_iter().map(|v| v.ty).collect()),
                 })
             }
+            Expr::Array(a) if a.elems.is_empty() => Ok(Val { s: "[]".into(), ty: Ty::Slice(Box::new(Ty::Infer)) }),
             Expr::Array(a) => {
                 if a.elems.len() < 2 {
                     return Err(unsupported(e, "array literal with fewer than 2 elements"));
@@ -188,7 +189,11 @@ impl<'a> Tr<'a> {
                     t if t.is_int() => Ok(Val { s: format!("(Casts.slice_idx {} {})", b.s, i.s), ty: elem }),
                     Ty::Option(_) => Ok(Val { s: format!("(Casts.slice_nth None {} {})", b.s, i.s), ty: elem }),
                     Ty::Bool => Ok(Val { s: format!("(Casts.slice_nth false {} {})", b.s, i.s), ty: elem }),
-                    _ => Err(unsupported(e, "indexing a slice whose elements are not integers, bool or Option")),
+                    t => match self.t.default_of(t) {
+                        // Rust panics out of range; the default inhabitant here
+                        Some(d) => Ok(Val { s: format!("(Casts.slice_nth {} {} {})", d, b.s, i.s), ty: elem.clone() }),
+                        None => Err(unsupported(e, &format!("indexing a slice of {} (no default inhabitant for the out-of-range case)", t.show()))),
+                    },
                 }
             }
             Expr::Index(ix) => {
@@ -521,8 +526,12 @@ impl<'a> Tr<'a> {
             if local_const && !self.t.consts.iter().any(|c| c.key == *n && c.file == self.cur_file) {
                 return Err(unsupported(at, &format!("`{}`: this file defines its own constant of that name, which is not configured", n)));
             }
-            if let Some(c) = self.t.consts.iter().find(|c| c.key == *n && (!local_const || c.file == self.cur_file)) {
-                let c = c.clone();
+            let cands: Vec<&ConstInfo> = self.t.consts.iter().filter(|c| c.key == *n && (!local_const || c.file == self.cur_file)).collect();
+            if cands.len() > 1 {
+                return Err(unsupported(at, &format!("`{}`: several configured constants of that name (of different files), none of them defined in this file", n)));
+            }
+            if let Some(c) = cands.first() {
+                let c = (*c).clone();
                 let ma = self.mvar_args(&c.mvars, env, at)?;
                 return Ok(Val { s: app(&c.coq, &ma), ty: c.ty.clone() });
             }
